@@ -17,10 +17,12 @@
     server's values, with its leaves serialised by ANY map that keeps pass-through scalars pass-through and
     index numbers readable ([atom_hom]; encoding/json on leaves is one, DiffMerge/GInst.v), merges the
     client's serialised old value into the serialised new value.
-    [fix4 = false] is diff.diffMap as it is in the tree, [fix4 = true] the repaired one of patches/C03-fix-4.patch;
+    [fix4 = true] is diff.diffMap as repaired by patches/C03-fix-4.patch (applied to /repo), [fix4 = false] the one
+    before the repair (the harness probes which one the tree under test has);
     [vwf_gen strict]: object keys unique, a "__key" is a comparable scalar or (unless [strict]) nil.  The
-    hypothesis [fix4 || strict = true] reads: the current code on the strict domain, or the repaired code
-    with explicit nil keys allowed.  [roundtrip_nil_key_refuted]: the current code off the strict domain.
+    hypothesis [fix4 || strict = true] reads: the unrepaired code on the strict domain, or the repaired code
+    with explicit nil keys allowed.  [roundtrip_nil_key_refuted]: the unrepaired code off the strict domain (how the
+    defect was found; corpus/C03/g1..g3).
     [guide]: which index list a list diff uses ([vchoose]): [None] = diff.computeReorderIndices; the round trips,
     the serialisation theorems and the well-formedness of deltas hold for EVERY guide (any index list of
     the right length with entries in range will do); what is said about the choice itself (nil delta iff equal,
@@ -152,7 +154,7 @@ Theorem json_leaves_hom :
 Proof. intros dl ml f1 f5 t f2 H. exact (conj (sopsL_laws dl f1 f5 t) (conj (wopsL_laws ml f2) (ser_homL dl ml f1 f5 t f2 H))). Qed.
 Print Assumptions json_leaves_hom.
 
-(** The current diffMap off the strict domain: an explicit nil "__key" facing an absent one puts the
+(** The unrepaired diffMap off the strict domain: an explicit nil "__key" facing an absent one puts the
     pseudo-field into the delta; merge.Merge then fails, or both clients keep a "__key" field. *)
 Theorem roundtrip_nil_key_refuted :
   (exists old new d, vwf (O := sops false) old = true /\ vwf (O := sops false) new = true
